@@ -833,4 +833,238 @@ theorem candidate_wrapper_length {U : Char → Bool} {name pre suf : Str} (h : W
   · have := (layer_glyphs U name k).length_le
     simp at this; omega
 
+/-! ## reserved device names -/
+
+def isAU (c : Char) : Bool := decide ('A'.toNat ≤ c.toNat ∧ c.toNat ≤ 'Z'.toNat)
+
+/-- every ASCII capital is immediately followed by an underscore -/
+def uf : Str → Bool
+  | [] => true
+  | [c] => !isAU c
+  | c :: d :: t => (!isAU c || d == '_') && uf (d :: t)
+
+theorem asciiLower_of_not_AU {c : Char} (h : isAU c = false) : asciiLower c = c := by
+  unfold asciiLower; unfold isAU at h
+  rw [if_neg (by simpa using h)]
+
+theorem reserved_eq : reserved = deviceNames := by decide
+
+theorem stem_cons (c : Char) (s : Str) : stem (c :: s) = if c ≠ '.' then c :: stem s else [] := by
+  unfold stem; rw [List.takeWhile_cons]; by_cases h : c = '.' <;> simp [h]
+
+theorem stem_lower_eq {s : Str} (h : uf s = true) (hu : '_' ∉ stem s) :
+    (stem s).map asciiLower = stem s := by
+  induction s with
+  | nil => rfl
+  | cons c s ih =>
+    rw [stem_cons] at hu ⊢
+    by_cases hc : c = '.'
+    · simp [hc]
+    · rw [if_pos hc] at hu ⊢
+      have hu2 : '_' ∉ stem s := fun h => hu (List.mem_cons_of_mem _ h)
+      cases s with
+      | nil =>
+        unfold uf at h
+        simp only [Bool.not_eq_eq_eq_not, Bool.not_true] at h
+        simp [stem, asciiLower_of_not_AU h]
+      | cons d t =>
+        unfold uf at h
+        simp only [Bool.and_eq_true, Bool.or_eq_true, Bool.not_eq_eq_eq_not, Bool.not_true, beq_iff_eq] at h
+        have hc' : isAU c = false := by
+          rcases h.1 with h1 | h1
+          · exact h1
+          · subst h1
+            exact absurd (by rw [stem_cons]; simp) hu2
+        rw [List.map_cons, asciiLower_of_not_AU hc', ih h.2 hu2]
+
+theorem no_underscore_of_device {w : Str} (h : w.map asciiLower ∈ deviceNames) : '_' ∉ w := by
+  intro hw
+  have h1 : '_' ∈ w.map asciiLower := List.mem_map.2 ⟨'_', hw, by decide⟩
+  have h2 : ∀ d ∈ deviceNames, '_' ∉ d := by decide
+  exact h2 _ h h1
+
+/-- with every capital followed by `_`, a stem that is a device name ignoring case is one literally -/
+theorem stem_reserved_of_uf {s : Str} (h : uf s = true) (hd : (stem s).map asciiLower ∈ deviceNames) :
+    stem s ∈ reserved := by
+  rw [stem_lower_eq h (no_underscore_of_device hd)] at hd
+  rw [reserved_eq]; exact hd
+
+theorem uf_cons_nonAU {c : Char} {s : Str} (hc : isAU c = false) (h : uf s = true) : uf (c :: s) = true := by
+  cases s with
+  | nil => simp [uf, hc]
+  | cons d t => unfold uf; simp [hc, h]
+
+theorem uf_cons_us {c : Char} {s : Str} (h : uf s = true) : uf (c :: '_' :: s) = true := by
+  unfold uf
+  simp [uf_cons_nonAU (c := '_') (by decide) h]
+
+theorem escape_uf {U : Char → Bool} (hU : ∀ c, isAU c = true → U c = true) (b : Bool) (name : Str) :
+    uf (escape U b name) = true := by
+  induction name generalizing b with
+  | nil => rfl
+  | cons c cs ih =>
+    unfold escape escChar
+    have ih' := ih false
+    split
+    · exact uf_cons_nonAU (by decide) ih'
+    · split
+      · exact uf_cons_nonAU (by decide) ih'
+      · split
+        · exact uf_cons_us ih'
+        · rename_i hc
+          have : isAU c = false := by
+            cases h : isAU c with
+            | false => rfl
+            | true => exact absurd (hU c h) hc
+          exact uf_cons_nonAU this ih'
+
+theorem stem_append_of_mem {x : Str} (y : Str) (h : '.' ∈ x) : stem (x ++ y) = stem x := by
+  induction x with
+  | nil => cases h
+  | cons c x ih =>
+    rw [List.cons_append, stem_cons, stem_cons]
+    by_cases hc : c = '.'
+    · simp [hc]
+    · rw [if_pos hc, if_pos hc]
+      rcases List.mem_cons.1 h with h | h
+      · exact absurd h.symm hc
+      · rw [ih h]
+
+theorem stem_append_of_not_mem {x : Str} (y : Str) (h : '.' ∉ x) : stem (x ++ y) = x ++ stem y := by
+  induction x with
+  | nil => rfl
+  | cons c x ih =>
+    have hc : c ≠ '.' := fun e => h (e ▸ List.mem_cons_self)
+    rw [List.cons_append, stem_cons, if_pos hc, ih (fun e => h (List.mem_cons_of_mem _ e))]
+    rfl
+
+theorem usize_le_4len (s : Str) : usize s ≤ 4 * s.length := by
+  induction s with
+  | nil => simp
+  | cons c s ih => have := csize_le4 c; simp; omega
+
+theorem device_len : ∀ w ∈ deviceNames, w.length ≤ 4 := by decide
+theorem device_head : ∀ w ∈ deviceNames, w.head? ≠ some '_' := by decide
+def penultDigit (w : Str) : Bool :=
+  match (w.reverse.drop 1).head? with
+  | some x => ['0', '1', '2', '3', '4', '5', '6', '7', '8', '9'].contains x
+  | none => false
+
+theorem device_penult : ∀ w ∈ deviceNames, penultDigit w = false := by decide
+
+theorem specStem_eq (p : Str) : p.takeWhile (· ≠ '.') = stem p := rfl
+
+/-- layer directories: the stem starts with the six letters `glyphs` -/
+theorem layer_not_reserved (U : Char → Bool) (name : Str) (k : Nat) :
+    NotReserved (candidate U name layerPrefix [] k) := by
+  unfold NotReserved
+  rw [specStem_eq]
+  obtain ⟨t, ht⟩ := layer_glyphs U name k
+  rw [← ht, stem_append_of_not_mem _ (by decide)]
+  intro h
+  have := device_len _ h
+  simp at this
+
+theorem glif_body_eq (U : Char → Bool) (name : Str) :
+    body U name [] glifSuffix = stage2 U name [] glifSuffix := by rw [body_eq]; rfl
+
+theorem glif_counterBase (U : Char → Bool) (name : Str) :
+    counterBase U name [] glifSuffix = body U name [] glifSuffix := by
+  unfold counterBase; simp only
+  rw [if_neg]
+  have h1 := stage2_usize U name [] glifSuffix
+  have h2 := body_usize U name [] glifSuffix
+  have h3 : usize glifSuffix = 5 := by decide
+  simp only [maxLen, numberLen] at *
+  omega
+
+theorem glif_candidate (U : Char → Bool) (name : Str) (k : Nat) :
+    ∃ T, candidate U name [] glifSuffix k = stage2 U name [] glifSuffix ++ T ∧
+      (T = glifSuffix ∨ T = twoDigits k ++ glifSuffix) := by
+  by_cases hk : k = 0
+  · subst hk; exact ⟨glifSuffix, by rw [candidate_zero, glif_body_eq], Or.inl rfl⟩
+  · refine ⟨twoDigits k ++ glifSuffix, ?_, Or.inr rfl⟩
+    rw [candidate_pos _ _ _ _ (by omega), glif_counterBase, glif_body_eq, List.append_assoc]
+
+theorem digit_props (n : Nat) : digit n ≠ '.' ∧ asciiLower (digit n) = digit n ∧
+    ['0', '1', '2', '3', '4', '5', '6', '7', '8', '9'].contains (digit n) = true := by
+  have := digit_mem n
+  simp only [List.mem_cons, List.not_mem_nil, or_false] at this
+  rcases this with h | h | h | h | h | h | h | h | h | h <;> rw [h] <;> decide
+
+theorem penult_two (x : Str) (a b : Char) :
+    penultDigit (x ++ [a, b]) = ['0', '1', '2', '3', '4', '5', '6', '7', '8', '9'].contains a := by
+  unfold penultDigit; simp
+
+/-- glif files: the stem is not a device name, ignoring ASCII case -/
+theorem glif_not_reserved {U : Char → Bool} (hU : ∀ c, isAU c = true → U c = true) (name : Str) (k : Nat) :
+    NotReserved (candidate U name [] glifSuffix k) := by
+  unfold NotReserved
+  rw [specStem_eq]
+  obtain ⟨T, hT, hT'⟩ := glif_candidate U name k
+  rw [hT]
+  have hs1 : stage1 U name [] = insertReserved (escape U true name) := rfl
+  have hpre := stage2_prefix U name [] glifSuffix
+  by_cases hres : stem (escape U true name) ∈ reserved
+  · -- the underscore in front
+    have h1 : (stage2 U name [] glifSuffix).head? = some '_' := by
+      rw [stage2_head (by decide), hs1]; unfold insertReserved; rw [if_pos hres]; rfl
+    cases hB : stage2 U name [] glifSuffix with
+    | nil => rw [hB] at h1; cases h1
+    | cons y ys =>
+      rw [hB] at h1; simp at h1; subst h1
+      rw [List.cons_append, stem_cons, if_pos (by decide), List.map_cons]
+      intro hd
+      exact device_head _ hd rfl
+  · have hs1' : stage1 U name [] = escape U true name := by
+      rw [hs1]; unfold insertReserved; rw [if_neg hres]
+    rw [hs1'] at hpre
+    intro hd
+    have hlen := device_len _ hd
+    rw [List.length_map] at hlen
+    have huf := escape_uf hU true name
+    by_cases hdot : '.' ∈ stage2 U name [] glifSuffix
+    · rw [stem_append_of_mem _ hdot] at hd
+      obtain ⟨u, hu⟩ := hpre
+      have : stem (escape U true name) = stem (stage2 U name [] glifSuffix) := by
+        rw [← hu]; exact stem_append_of_mem _ hdot
+      rw [← this] at hd
+      exact hres (stem_reserved_of_uf huf hd)
+    · rw [stem_append_of_not_mem _ hdot] at hd hlen
+      -- four characters at most: nothing was clipped
+      have hB : stage2 U name [] glifSuffix = escape U true name := by
+        unfold stage2 at hlen ⊢
+        rw [hs1'] at hlen ⊢
+        split
+        · rename_i hc
+          rw [if_pos hc] at hlen
+          have h5 : usize glifSuffix = 5 := by decide
+          have hg := takeBytes_gap (n := maxLen - usize glifSuffix) (s := escape U true name)
+            (by simp only [maxLen] at *; omega)
+          have h4 := usize_le_4len (takeBytes (maxLen - usize glifSuffix) (escape U true name))
+          simp only [List.length_append, maxLen] at *
+          omega
+        · rfl
+      rw [hB] at hd hdot
+      have hst : stem (escape U true name) = escape U true name := by
+        have := stem_append_of_not_mem [] hdot
+        simpa [stem] using this
+      rcases hT' with hT' | hT'
+      · subst hT'
+        have : stem glifSuffix = [] := by decide
+        rw [this, List.append_nil, ← hst] at hd
+        exact hres (stem_reserved_of_uf huf hd)
+      · subst hT'
+        have hd1 := digit_props (k / 10)
+        have hd2 := digit_props k
+        have : stem (twoDigits k ++ glifSuffix) = twoDigits k := by
+          unfold twoDigits
+          rw [List.cons_append, List.cons_append, stem_cons, if_pos hd1.1, stem_cons, if_pos hd2.1]
+          rfl
+        rw [this] at hd
+        have hp := device_penult _ hd
+        unfold twoDigits at hp
+        rw [List.map_append, List.map_cons, List.map_cons, List.map_nil, penult_two, hd1.2.1, hd1.2.2] at hp
+        cases hp
+
 end C07
